@@ -35,7 +35,8 @@ def cases(draw, tier):
     tot = draw(st.floats(0., 1.5, allow_nan=False))
     s = sum(abs(r) for r in raw)
     phi = [r / s * tot for r in raw]
-    lens = [50, 5, 2, 500, 1, 0] + ([5000] if tier == "thorough" else [])
+    lens = [50, 5, 2, 500, 1, 0, 127, 128, 129, 1023, 1024, 1025] \
+        + ([5000, 4096, 4097, 65537] if tier == "thorough" else [])
     n = draw(st.sampled_from(lens))
     if n <= 50:
         innov = [draw(norm) for _ in range(n)]
